@@ -485,6 +485,10 @@ Proof.
     destruct (find_user _ _); [exact I|]. cbn. apply setc_H; [fld|]; auto.
   - destruct (find_user _ _) as [c|]; [|exact I]. destruct (nth_error _ _); [|exact I].
     cbn. apply setc_H; [fld|]; auto.
+  - (* LoopEnd *)
+    destruct (_ || _ || _); [exact I|]. unfold loop_end. cbn [k_chan set_timers set_pending].
+    destruct (k_chan s) eqn:E; [exact I|]. apply wp_ret. hs. rewrite E in *.
+    destruct H as [H1 H2 H3 H4 H5 H6 H7]. split; auto. cbn in *. reflexivity.
 Qed.
 
 Lemma init_H : Hs None init.
